@@ -80,8 +80,8 @@ class YncaProtocol(serial.threaded.LineReader):
         if self._send_queue:
             # There seems to be no way to clear a queue so just read all and add the _EXIT command
             try:
-                while self._send_queue.get(False):
-                    pass
+                while True:
+                    self._send_queue.get(False)
             except queue.Empty:
                 pass
             finally:
